@@ -692,6 +692,57 @@ def scan_unguarded_sites() -> list[tuple[str, str, str]]:
     return sorted(found)
 
 
+def scan_lookup_sites() -> list[tuple[str, str, str, str]]:
+    """(file, method, table, handler classes of the innermost enclosing try — '' if none) for every subscript
+    look-up in the per-call tables (LOOKUP_TABLES) inside the operator / function / token modules"""
+    import ast
+    found = set()
+
+    def names_of(t):
+        if t is None:
+            return ['BaseException']
+        if isinstance(t, ast.Tuple):
+            return [n for e in t.elts for n in names_of(e)]
+        return [ast.unparse(t).split('.')[-1]]
+
+    def walk(node, func, handlers, rel):
+        for ch in ast.iter_child_nodes(node):
+            if isinstance(ch, (ast.FunctionDef, ast.AsyncFunctionDef)):
+                walk(ch, ch.name, '', rel)
+                continue
+            if isinstance(ch, ast.Try) and ch.handlers:
+                hs = ','.join(sorted({n for h in ch.handlers for n in names_of(h.type)}))
+                for st in ch.body:
+                    visit(st, func, hs, rel)
+                for part in list(ch.handlers) + ch.orelse + ch.finalbody:
+                    visit(part, func, handlers, rel)
+                continue
+            visit(ch, func, handlers, rel)
+
+    def visit(node, func, handlers, rel):
+        if isinstance(node, ast.Subscript) and isinstance(node.ctx, ast.Load):
+            b = ast.unparse(node.value).split('.')[-1]
+            if b in LOOKUP_TABLES and func:
+                found.add((rel, func, b, handlers))
+        if isinstance(node, ast.Try) and node.handlers:
+            hs = ','.join(sorted({n for h in node.handlers for n in names_of(h.type)}))
+            for st in node.body:
+                visit(st, func, hs, rel)
+            for part in list(node.handlers) + node.orelse + node.finalbody:
+                visit(part, func, handlers, rel)
+            return
+        if isinstance(node, (ast.FunctionDef, ast.AsyncFunctionDef)):
+            walk(node, node.name, '', rel)
+            return
+        walk(node, func, handlers, rel)
+
+    for rel in sorted(set(GUARD_FILES)):
+        path = REPO / 'elementpath' / rel
+        if path.exists():
+            walk(ast.parse(path.read_text()), None, '', rel)
+    return sorted(found)
+
+
 def scan_while_loops() -> list[tuple[str, str, str]]:
     import ast
     pkg = REPO / 'elementpath'
@@ -820,6 +871,10 @@ def translate_tables(run: Run) -> dict:
     ung = scan_unguarded_sites()
     out.append('def unguardedSites : List (String × String × String) := [' +
                ', '.join(f'({lean_str(a)}, {lean_str(b)}, {lean_str(c)})' for a, b, c in ung) + ']')
+    lk = scan_lookup_sites()
+    out.append('def lookupSites : List (String × String × String × String) := [' +
+               ', '.join(f'({lean_str(a)}, {lean_str(b)}, {lean_str(c)}, {lean_str(d)})' for a, b, c, d in lk) + ']')
+    info['lookup_sites'] = len(lk)
     wl = scan_while_loops()
     out.append('def whileLoops : List (String × String × String) := [' +
                ', '.join(f'({lean_str(a)}, {lean_str(b)}, {lean_str(c)})' for a, b, c in wl) + ']')
@@ -1331,6 +1386,10 @@ def gen_explore_cases(rng, n: int, matrix: str = 'classes') -> list[dict]:
         for v in VERSIONS:
             cases.append({'v': v, 's': s, 'c': 'doc', 'g': 'corpus'})
     if matrix != 'none':
+        tnames = G.all_type_names([parser_class(v) for v in VERSIONS])
+        for v in VERSIONS:
+            for s, tag in G.typed_function_cases(v, tnames, full=(matrix == 'pool')):
+                cases.append({'v': v, 's': s, 'c': 'doc', 'g': tag})
         for v in VERSIONS:
             for s, tag in G.name_cases(v):
                 cases.append({'v': v, 's': s, 'c': 'doc', 'g': tag})
